@@ -136,7 +136,7 @@ fn main() {
     let args = parse_args();
     let mut run = Runner::new("C17", &args.tier, "model_checking");
     let thorough = run.thorough();
-    let jobs: Vec<(usize, usize)> = (4..=18).map(|b| (b, if thorough { if b <= 12 { 3 } else { 2 } } else if b <= 7 { 3 } else { 2 })).collect();
+    let jobs: Vec<(usize, usize)> = (4..=18).map(|b| (b, if thorough { if b <= 16 { 3 } else { 2 } } else if b <= 7 { 3 } else { 2 })).collect();
     let res = par_map(&jobs, n_threads(), |&(b, d)| run_b(b, d));
     let (mut st, mut cmp) = (0u64, 0u64);
     for (s, c, vs) in res {
